@@ -617,9 +617,92 @@ impl Family for InheritanceGraphs {
                 if diags.iter().any(|d| d.code == "E032") {
                     out.violate("c05/inheritance/infinite-size-error-without-containment", format!("E032 reported for a program without any struct/enum\n--- input ---\n{text}"));
                 }
+                // "every reported chain is a real path": the chain of an inheritance loop starts and ends at the interface
+                // the error is about, and every link is a base that interface lists
+                let two_modules = texts.len() == 2;
+                let index_of = |name: &str| -> Option<usize> {
+                    let name = name.trim();
+                    if two_modules {
+                        ["M1::P", "M1::Q", "M2::P", "M2::Q"].iter().position(|n| *n == name)
+                    } else {
+                        name.strip_prefix("G::I").and_then(|x| x.parse::<usize>().ok()).filter(|i| *i < 4)
+                    }
+                };
+                let mut named = [false; 4];
+                for d in diags.iter().filter(|d| d.code == "E037") {
+                    let Some((head, chain)) = d.message.split_once(": ") else { continue };
+                    let ids: Vec<Option<usize>> = chain.split("->").map(|x| index_of(x)).collect();
+                    let about = head.split('\'').nth(1).and_then(|n| index_of(n));
+                    let real = ids.len() >= 2 && ids.iter().all(|i| i.is_some()) && ids.first() == ids.last() && ids[0] == about && ids.windows(2).all(|w| adj[w[0].unwrap()][w[1].unwrap()]);
+                    if !real {
+                        out.violate("c05/inheritance/reported-chain-is-not-a-path", format!("{:?}: the chain must start and end at the interface the error is about and follow the base lists\n--- input ---\n{text}", d.message));
+                        break;
+                    }
+                    named[about.unwrap()] = true;
+                }
+                if cyclic && diags.iter().any(|d| d.code == "E037") {
+                    if let Some(i) = (0..4).find(|i| r[*i][*i] && !named[*i]) {
+                        out.violate("c05/inheritance/interface-on-a-loop-not-reported", format!("interface #{i} inherits from itself but no inheritance-loop error is about it\n--- input ---\n{text}"));
+                    }
+                }
             }
         }
         out
+    }
+}
+
+/// Containment cycles and inheritance loops in ONE compilation (one file, two files in both orders): each kind is
+/// reported as if the other were not there.
+pub struct BothKindsOfCycle;
+impl Family for BothKindsOfCycle {
+    fn name(&self) -> String {
+        "both-kinds/a containment cycle (direct, through an optional sequence, through an enum) next to an inheritance loop (self, ring of two) x one file / two files in both orders / the same with an alias loop as a third party".into()
+    }
+    fn len(&self) -> u64 {
+        3 * 2 * 4
+    }
+    fn describe(&self, idx: u64) -> Value {
+        json!({"files": Self::texts(idx)})
+    }
+    fn run(&self, idx: u64) -> CaseOut {
+        let texts = Self::texts(idx);
+        let mut out = CaseOut::new(hash_str(&texts.join("\u{1}")));
+        out.validated = 1;
+        out.nontrivial = true;
+        let refs: Vec<&str> = texts.iter().map(|s| s.as_str()).collect();
+        let input = || texts.join("\n--- next file ---\n");
+        match compile_texts(&refs, None) {
+            Err((loc, msg)) => out.violate(format!("c05/both-kinds/panic@{loc}"), format!("{msg}\n--- input ---\n{}", input())),
+            Ok((_, _, diags)) => {
+                let has = |c: &str| diags.iter().any(|d| d.code == c);
+                // (an alias loop ends the compilation in the patching phase: then neither of the other two is judged)
+                let alias_loop = texts.iter().any(|t| t.contains("typealias LA"));
+                if !alias_loop {
+                    if !has("E032") {
+                        out.violate("c05/both-kinds/containment-cycle-not-diagnosed-next-to-an-inheritance-loop", format!("codes {:?}\n--- input ---\n{}", diags.iter().map(|d| &d.code).collect::<Vec<_>>(), input()));
+                    }
+                    if !has("E037") {
+                        out.violate("c05/both-kinds/inheritance-loop-not-diagnosed-next-to-a-containment-cycle", format!("codes {:?}\n--- input ---\n{}", diags.iter().map(|d| &d.code).collect::<Vec<_>>(), input()));
+                    }
+                } else if !has("E019") {
+                    out.violate("c05/both-kinds/alias-loop-not-diagnosed", format!("codes {:?}\n--- input ---\n{}", diags.iter().map(|d| &d.code).collect::<Vec<_>>(), input()));
+                }
+                out.class = format!("{:?}", { let mut c: Vec<&str> = diags.iter().filter(|d| d.level == "error").map(|d| d.code.as_str()).collect(); c.sort(); c.dedup(); c });
+            }
+        }
+        out
+    }
+}
+impl BothKindsOfCycle {
+    fn texts(idx: u64) -> Vec<String> {
+        let containment = ["struct Node { next: Node }\n", "struct Tree { kids: Sequence<Tree>? }\nstruct Leaf { t: Tree }\n", "enum Shape { Leaf, Group(inner: Holder) }\nstruct Holder { s: Shape }\n"][(idx % 3) as usize];
+        let inheritance = ["interface Selfish : Selfish {}\n", "interface Ping : Pong { a() }\ninterface Pong : Ping { b() }\n"][((idx / 3) % 2) as usize];
+        match idx / 6 {
+            0 => vec![format!("module G\n{containment}{inheritance}")],
+            1 => vec![format!("module G\n{containment}"), format!("module H\n{inheritance}")],
+            2 => vec![format!("module H\n{inheritance}"), format!("module G\n{containment}")],
+            _ => vec![format!("module G\n{containment}"), format!("module H\n{inheritance}"), "module K\ntypealias LA = LB\ntypealias LB = LA\n".to_string()],
+        }
     }
 }
 impl InheritanceGraphs {
@@ -773,5 +856,6 @@ pub fn families(tier: &str) -> Vec<Box<dyn Family>> {
         Box::new(FourNodes { all_routings: !quick }),
         Box::new(TwoModules { modes: if tier == "quick" { 4 } else { 8 } }),
         Box::new(AliasDiamonds),
+        Box::new(BothKindsOfCycle),
     ]
 }
